@@ -821,7 +821,7 @@ fn cmd_check(args: &Args) -> i32 {
         "coverage": {
             "evaluations": evaluations,
             "distinct_nontrivial": distinct,
-            "rule": "one evaluation = one simulated run: value(s) in a JSON document shape (bare, array, struct field, internally tagged enum, map keys) -> in-memory baseline (print, re-parse, compare, serde in memory) -> printing into the simulated fmt::Write sink -> serde_json::to_writer[_pretty] through the recording shim [and a BufWriter] into the simulated writer and medium -> crash / lost writes / bit flips -> recovery through the planned delivery modes under their read schedules. Enumeration part: for each corpus value every write_str index x {transient, sticky, re-enter} in 3 caller shapes, every write-call index x {EINTR, transient, sticky, full, lost, re-enter, short(1), short(len-1), EINTR+hard} and a crash at every byte of every call x 4 tail-survival choices under 5-6 knob sets, 4 flush faults, every read-call index x {EINTR, hard, EOF, 1-byte chunk, re-enter} for 3 reader deliveries, every single bit of the stored record; complete per value. Search part: value (one run in eight a sibling of the previous run's value), knobs, enabled fault kinds and rates, and every stub decision drawn from xoshiro256** seeded by splitmix64(VERIF_SEED, run index); chunks of 512 runs execute on a thread of their own so that the earlier runs of a chunk are an exact, replayable history. A run is non-trivial when at least one fault or re-entrant operation was actually delivered while the phase had in-flight state (write fault with >=1 serializer write issued, formatter fault, read fault on a non-empty medium, a bit flip, a re-entrant operation); distinct = distinct FNV-1a keys over (value spec, knobs, effective schedule of every stub).",
+            "rule": "one evaluation = one simulated run: value(s) in a JSON document shape (bare, array, struct field, internally tagged / untagged enum, flattened struct, Option, map keys) -> in-memory baseline (print, re-parse, compare, serde in memory) -> printing into the simulated fmt::Write sink -> serde_json::to_writer[_pretty] through the recording shim [and a BufWriter] into the simulated writer and medium -> crash / lost writes / bit flips -> recovery through the planned delivery modes under their read schedules. Enumeration part: for each corpus value every write_str index x {transient, sticky, re-enter, sink panic} in 3 caller shapes, every write-call index x {EINTR, transient, sticky, full, lost, re-enter, sink panic, short(1), short(len-1), EINTR+hard} and a crash at every byte of every call x 4 tail-survival choices under 5-6 knob sets, 4 flush faults, every read-call index x {EINTR, hard, EOF, 1-byte chunk, re-enter} for the 4 reader deliveries (8 deliveries in all), every single bit of the stored record; complete per value. Search part: value (one run in eight a sibling of the previous run's value), knobs, enabled fault kinds and rates, and every stub decision drawn from xoshiro256** seeded by splitmix64(VERIF_SEED, run index); chunks of 512 runs execute on a thread of their own so that the earlier runs of a chunk are an exact, replayable history. A run is non-trivial when at least one fault or re-entrant operation was actually delivered while the phase had in-flight state (write fault with >=1 serializer write issued, formatter fault, read fault on a non-empty medium, a bit flip, a re-entrant operation); distinct = distinct FNV-1a keys over (value spec, knobs, effective schedule of every stub).",
             "samples": samples,
             "exhaustive": false,
             "enumeration": {
@@ -835,8 +835,9 @@ fn cmd_check(args: &Args) -> i32 {
                 "swarm_runs": runs,
                 "long_history_runs_on_one_thread": long_runs,
                 "wall_s": search_s,
-                "runs_per_hour": ((ff_runs + runs) as f64 / search_s.max(1e-9) * 3600.0) as u64,
-                "seeds_per_hour": ((ff_runs + runs) as f64 / search_s.max(1e-9) * 3600.0) as u64,
+                "runs_per_hour": ((ff_runs + runs + long_runs) as f64 / search_s.max(1e-9) * 3600.0) as u64,
+                "seeds_per_hour": ((ff_runs + runs + long_runs) as f64 / search_s.max(1e-9) * 3600.0) as u64,
+                "rate_note": "wall time includes the single-threaded long-history pass; the parallel batches alone run at several times this rate",
             },
             "faults_injected": {
                 "writer": {
@@ -890,7 +891,7 @@ fn cmd_check(args: &Args) -> i32 {
             "components": {
                 "real": [
                     "nodejs_semver Display/Serialize/Deserialize/Version::parse/Range::parse/PartialEq/satisfies/allows_any/intersect/difference (from /repo working tree, feature serde, unmodified)",
-                    "serde, serde_json to_writer/to_writer_pretty/from_reader/from_slice/from_str/from_value, serde::de::value deserializers",
+                    "serde, serde_json to_writer/to_writer_pretty/to_value/from_reader/from_slice/from_str/from_value, serde derive (struct field, internally tagged / untagged enum, flatten, Option, map keys), Deserialize::deserialize_in_place",
                     "std::io::Write::write_all, std::io::BufWriter, std::io::BufReader, core::fmt::write"
                 ],
                 "stubs": ["SimWriter (io::Write)", "SimReader (io::Read)", "SimFmtSink (fmt::Write)", "Disk (durable prefix + volatile tail, crash, lost write, bit flips)", "process crash/restart", "re-entrant caller (a sink/reader that itself uses the crate)"],
